@@ -45,7 +45,10 @@ def run(ctx):
     check_accessors(ctx)
     from .. import rules_base as RB
     ctx.rule('R3.B', 'base model: token-type containment, token flags, Token.match, imt and the navigation helpers behave as the rules assume (source interpreted on a finite matrix)', floor=1)
-    RB.check_base_model(ctx, 'R3.B', parts=('contains', 'flags', 'match', 'imt', 'nav'))
+    from .. import rules_lexer as RL
+    ctx.rule('R3.7', 'the leaves are the lexer tokens of the whole statement text: the input is scanned in one piece (streams read completely first)', floor=3)
+    RL.check_whole_text(ctx, 'R3.7')
+    RB.check_base_model(ctx, 'R3.B', parts=('contains', 'flags', 'match', 'imt', 'nav', 'tree', 'group_tokens'))
 
 
 def check_retyping(ctx, stores):
